@@ -10,6 +10,7 @@ import re
 
 PRELUDE = '''"""generated host program"""
 import asyncio
+import concurrent.futures
 import threading
 import weakref
 
@@ -933,6 +934,33 @@ async def amain_@I@(n):
 def use_asyncio_@I@(n):
     return asyncio.run(amain_@I@(n))
 ''', 'use_asyncio_@I@(@A@ + 1)'),
+    ('pool_map', '''
+def pool_job_@I@(v):
+    doubled = v * 2
+    if v == @B@:
+        raise HostError("job failed", v)
+    return doubled + 1
+
+
+def pool_done_@I@(fut, sink):
+    err = fut.exception()
+    sink.append(("done", type(err).__name__ if err else fut.result()))
+
+
+def pool_map_@I@(n):
+    sink = []
+    with concurrent.futures.ThreadPoolExecutor(max_workers=2) as ex:
+        futs = [ex.submit(pool_job_@I@, i) for i in range(n + 2)]
+        for f in futs:
+            f.add_done_callback(lambda fut: pool_done_@I@(fut, sink))
+        outs = []
+        for f in futs:
+            try:
+                outs.append(f.result())
+            except HostError as e:
+                outs.append(("failed", e.args))
+    return outs, sorted(sink, key=repr)
+''', 'pool_map_@I@(@A@)'),
 ]
 SHAPE_NAMES = [s[0] for s in SHAPES]
 # shapes that are only used when a check asks for them by name (too heavy for every program)
